@@ -59,6 +59,13 @@ pub fn run_e2_with(
     let mut fams = Vec::new();
     let t0 = std::time::Instant::now();
     for (fname, set, mode) in items {
+        // debugging aid: VX_ONLY_FAMILY=<name>[:<set>] restricts a check to one family (set)
+        if let Ok(only) = std::env::var("VX_ONLY_FAMILY") {
+            let mut it = only.split(':');
+            if it.next() != Some(*fname) || it.next().map(|s| s != *set).unwrap_or(false) {
+                continue;
+            }
+        }
         let fam = registry(fname);
         let left = deadline_s - t0.elapsed().as_secs_f64();
         let agg = run_family(fam.as_ref(), set, mode, nshards(), left.max(1.0));
@@ -358,7 +365,7 @@ pub fn c15(ctx: &CheckCtx) -> CheckResult {
                 set,
                 Mode {
                     clock_check: true,
-                    clock_all_targets: ctx.tier.is_thorough(),
+                    clock_all_targets: false,
                     // every k-th program (the sets are sorted simplest first): all sizes are sampled
                     stride: (n / want).max(1),
                     max_execs: 50_000,
@@ -369,12 +376,12 @@ pub fn c15(ctx: &CheckCtx) -> CheckResult {
         .collect();
     let mut items = items;
     // releases of unrelated tasks feeding acquisitions of several permits
-    items.push(("sem", "clocks", Mode { clock_check: true, clock_all_targets: ctx.tier.is_thorough(), max_execs: 50_000, ..Mode::default() }));
+    items.push(("sem", "clocks", Mode { clock_check: true, clock_all_targets: false, max_execs: 50_000, ..Mode::default() }));
     run_e2(ctx, &mut res, &items, &[VKind::Other("Clock".into()), VKind::Abort], if ctx.tier.is_thorough() { 1500.0 } else { 50.0 });
     if let Some(v) = res.coverage.remove("scheduling_decisions") {
         res.coverage.insert("must_edges_checked".into(), v);
     }
-    res.cov("rule", "every execution of the complete choice tree of the generated programs (every k-th program of each family's set, about 450 per family in the quick tier) with shuttle::current::clock() sampled after every operation; HB_must = program order + spawn->child start + child end->join + per-primitive API-level rules (unlock->later lock, write-unlock->later read/write lock, read-unlock->later write lock, atomic write->later read/RMW of the variable, send->its receive, k-th receive->(k+c)-th send on a bounded channel, notify_all->the waits it released, barrier: before-arrival->every departure of the generation, winning call_once->later call_once, flag store->later flag load): the later clock must dominate the earlier one; HB_may = closure of program order, spawn/join and 'any two operations on a common object, earlier->later': two tasks that have each advanced their own clock component may only be clock-ordered if such a chain exists; per-task clocks never decrease; target-clock replay: ReplayScheduler restricted to the clock of a thread's last operation (main only in quick, every thread in thorough) must not fail and must reproduce every operation in the HB_must-past of the target with the same result; traces_validated = target-clock replays");
+    res.cov("rule", "every execution of the complete choice tree of the generated programs (every k-th program of each family's set, about 450 per family in the quick tier) with shuttle::current::clock() sampled after every operation; HB_must = program order + spawn->child start + child end->join + per-primitive API-level rules (unlock->later lock, write-unlock->later read/write lock, read-unlock->later write lock, atomic write->later read/RMW of the variable, send->its receive, k-th receive->(k+c)-th send on a bounded channel, notify_all->the waits it released, barrier: before-arrival->every departure of the generation, winning call_once->later call_once, flag store->later flag load): the later clock must dominate the earlier one; HB_may = closure of program order, spawn/join and 'any two operations on a common object, earlier->later': two tasks that have each advanced their own clock component may only be clock-ordered if such a chain exists; per-task clocks never decrease; target-clock replay: ReplayScheduler restricted to the clock of main's last operation must not fail and must reproduce every operation in the HB_must-past of the target with the same result; traces_validated = target-clock replays");
     res.assumptions.push("documented over-approximations (waiter clock frozen at enqueue, last_acquire on failed tries) only add edges, hence the two-relation form".into());
     res
 }
